@@ -338,9 +338,7 @@ func registerSDK(p *Program) {
 	p.Intr["("+sdkTypes+".Coins).Validate"] = func(x *Exec, c *CallCtx) Value {
 		sl := c.Args[0].(SliceV)
 		es := x.sliceElems(sl)
-		if len(es) > 1 {
-			x.Unsupported("Coins.Validate with more than one coin")
-		}
+		var prev *smt.Term
 		for _, e := range es {
 			d, a := x.coinOf(e)
 			if !x.Branch(x.validDenom(d)) {
@@ -352,6 +350,12 @@ func registerSDK(p *Program) {
 			if !x.Branch(x.B.Gt(a.T, x.B.Int(0))) {
 				return x.newErr("coins-validate", "coin is not positive")
 			}
+			// denominations strictly ascending (sorted, no duplicates)
+			dt := x.strAtomTerm(d)
+			if prev != nil && !x.Branch(x.strLess(prev, dt)) {
+				return x.newErr("coins-validate", "denominations not sorted or duplicated")
+			}
+			prev = dt
 		}
 		return IfaceV{}
 	}
